@@ -2,7 +2,10 @@ import sys, json, os, shutil, subprocess, importlib
 sys.path.insert(0,'/verif')
 from lib import report as R, facts as FA, selfval, extract as X
 CLAIMED=[c["property_id"] for c in json.load(open('/verif/MANIFEST.json'))["checks"]]
-KNOWN_ALARM={}
+KNOWN_ALARM={
+ ('W1','2'): "C15 M1: the iterator `.sum()` of end_col_for_line / line_col_for_pos rewritten as an explicit `+=` loop is a new overflow-checked addition that the panic inventory can neither discharge mechanically nor match to a reviewed site (same limit as in campaigns 3 and 4)",
+ ('W6','1'): "C02 P6 / C10 Q1: lex_string walks char_indices() and adds `offset + c.len_utf8()` where it summed `total_len += c.len_utf8()`: the overflow-checked addition is a different construct under different guards than the reviewed one (verifier-style inventory; the addition is bounded by the text length)",
+}
 for t in sys.argv[1:]:
     notes=json.load(open('/tmp/bseed/%s/notes.json'%t))
     for ch in notes['changes']:
@@ -32,7 +35,7 @@ for t in sys.argv[1:]:
         shutil.rmtree(dst,ignore_errors=True); os.makedirs(dst)
         shutil.copy(patch,dst+'/patch.diff')
         meta={"benign":True,"summary":"%s: %s"%(ch.get('kind',''),ch.get('what','')),"why_behaviour_preserving":ch.get('why_behaviour_preserving',''),
-              "origin":"sub-agent asked for realistic behaviour-preserving refactorings of a given file set (fifth campaign, aimed at the files the round-5 rules read); no knowledge of the properties or of /verif; it confirmed build + unchanged suite",
+              "origin":"sub-agent asked for realistic behaviour-preserving refactorings of a given file set (sixth campaign, aimed at the files the round-6 rules read: LineMap, converters and handlers, Package / Change::apply, the import queries, the body lowering, the string lexer, finish_infer / Collector, the close / watched-files handlers); no knowledge of the properties or of /verif; it confirmed build + unchanged suite",
               "confirmed":{"how":"all rule modules on a scratch copy of /repo + patch","outcome":"all claimed checks silent" if not alarms else "all claimed checks silent except the documented one"},
               "silent_for":[p for p in CLAIMED if p not in alarms]}
         if ka: meta["known_alarm"]=ka
